@@ -152,6 +152,14 @@ def assignments(rule_name):
             if foreign:
                 attrs[foreign] = "1"
             yield attrs
+    # enumerated attributes carrying values that are no strings (add_attribute is untyped, JSON import passes booleans and
+    # numbers through): none of them is a listed value
+    for a, s_ in spec.items():
+        if len(s_) > 1:
+            for v in (False, True, 0, 1, 0.0, 1.0, None):
+                attrs = {b: (t_[1] if len(t_) > 1 else "v") for b, t_ in spec.items() if t_[0]}
+                attrs[a] = v
+                yield attrs
     # foreign attributes written with a namespace prefix (the prefix is bound on the node in the dressed-up run)
     for foreign in ("stmml:unitType", "x:note", "xml:lang", "xsi:type"):
         attrs = {a: (s_[1] if len(s_) > 1 else "v") for a, s_ in spec.items() if s_[0]}
